@@ -524,6 +524,127 @@ def fam_gateway(rng, thorough, kind='ip'):
     return dict(name='gateway-' + kind, hosts=[h], ops=ops)
 
 
+# ------------------------------------------------------------------ payloads that make the Internet checksum carry twice
+def _ws(b):
+    """plain sum of the big-endian 16-bit words of b (odd byte padded on the right)"""
+    b = list(b)
+    if len(b) % 2:
+        b.append(0)
+    return sum(b[i] * 256 + b[i + 1] for i in range(0, len(b), 2))
+
+
+def _fold(v):
+    while v >> 16:
+        v = (v & 0xffff) + (v >> 16)
+    return v
+
+
+def _abytes(a):
+    import ipaddress
+    return list(ipaddress.ip_address(a).packed)
+
+
+def _pseudo_init(src, dst, proto, length=None):
+    """16-bit sum an implementation carries into the payload when it sums pseudo-header first
+    (length only where the implementation adds it before the payload: ICMPv6)"""
+    x = _fold(_ws(_abytes(src)))
+    x = _fold(x + _ws(_abytes(dst)))
+    x = _fold(x + proto)
+    if length is not None:
+        x = _fold(x + length)
+    return x
+
+
+DENSE = [0xff, 0xff, 0xfe, 0xfd] + list(range(0x80, 0x100))
+
+
+def dense(rng, n):
+    return [rng.choice(DENSE) if rng.random() < 0.5 else rng.choice([0xff, 0xfe, 0xfd]) for _ in range(n)]
+
+
+def carry_payloads(rng, n, init):
+    """Dense payloads of n bytes whose running 32-bit sum (starting from `init`) ends with
+    low16 + high16 in 0xffff+1 .. 0xffff+H: exactly where an implementation that folds the carries
+    only once loses the end-around carry.  The last full 16-bit word is solved for; variants sit
+    at both ends and in the middle of the window, plus one just outside."""
+    out = []
+    body = dense(rng, n)
+    pos = (n // 2 - 1) * 2                       # offset of the last full word
+    rest = body[:pos] + body[pos + 2:]
+    base = init + _ws(body[:pos] + [0, 0] + body[pos + 2:])
+    hs, ls = divmod(base, 65536)
+    for k in sorted(set([0, 1, hs // 2, max(hs - 1, 0), hs])):   # k = hs is just outside the window
+        w = 65535 - ls - k
+        if 0 <= w <= 65535:
+            b = list(body)
+            b[pos], b[pos + 1] = w >> 8, w & 255
+            out.append(b)
+    return out
+
+
+DN4, DP4 = '223.254.253.252', '223.255.254.253'
+DN6, DP6 = 'fdff:ffff:ffff:ffff:ffff:ffff:ffff:fffe', 'fdff:ffff:ffff:ffff:ffff:ffff:fffe:fffd'
+
+
+def fam_dense(rng, thorough):
+    """Checksum carry family: high-valued addresses and ports, long payloads of 0xff/0xfe-heavy bytes, and
+    payloads crafted so that the sum carries twice, through every checksum path the stack has: UDP v4/v6
+    (MTU-sized and beyond), TCP segments v4/v6, echo replies v4/v6 and ping sockets v4/v6."""
+    mtu = 1500
+    nic = dict(id=1, mtu=mtu, mac=M11, kind='ip', resolve=False, addr4=[DN4], addr6=[DN6])
+    h = dict(id=1, sack=True, nics=[nic], neigh=[], routes=[dict(dst='0.0.0.0', mask=MASK0, gw='', nic=1), dict(dst='::', mask=MASK0_6, gw='', nic=1)])
+    ops = []
+    # UDP: the implementation sums pseudo-header (without length), then the payload
+    for v, sid, src, dst, proto_hdr in ((4, 1, DN4, DP4, 28), (6, 2, DN6, DP6, 48)):
+        ops.append(dict(op='sock', s=sid, proto='udp', v=v))
+        ops.append(dict(op='bind', s=sid, addr='', port=65535 - v))
+        init = _pseudo_init(src, dst, 17)
+        for n in [mtu - proto_hdr, rng.choice([1000, 1001, 513]), rng.choice([3000, 4001]), rng.choice([64, 65, 200])]:
+            for b in carry_payloads(rng, n, init)[:4 if n < 2000 else 2]:
+                ops.append(dict(op='write', s=sid, n=n, data=b, to=dict(addr=dst, port=65534)))
+        for _ in range(3):
+            n = rng.choice([mtu - proto_hdr, mtu - proto_hdr - 1, 1200])
+            ops.append(dict(op='write', s=sid, n=n, data=dense(rng, n), to=dict(addr=dst, port=65534)))
+    # echo replies: ICMPv4 sums the data alone; ICMPv6 sums pseudo-header with length and next header first
+    for n in [mtu - 28, rng.choice([600, 601])]:
+        for b in carry_payloads(rng, n, 0)[:3]:
+            ops.append(dict(op='inject', nic=1, kind='echo', src=DP4, dst=DN4, ident=0xfffe, seq=0xfffd, n=n, data=b))
+        ops.append(dict(op='settle', ms=3))
+    for n in [mtu - 48, rng.choice([600, 601])]:
+        for b in carry_payloads(rng, n, _pseudo_init(DN6, DP6, 58, 8 + n))[:3]:
+            ops.append(dict(op='inject', nic=1, kind='echo', src=DP6, dst=DN6, ident=0xfffe, seq=0xfffd, n=n, data=b))
+        ops.append(dict(op='settle', ms=3))
+    # ping sockets (echo requests)
+    for v, sid, proto, src, dst in ((4, 3, 'ping4', DN4, DP4), (6, 4, 'ping6', DN6, DP6)):
+        ops.append(dict(op='sock', s=sid, proto=proto, v=v))
+        n = rng.choice([1200, 1201, 800])
+        init = 0 if v == 4 else _pseudo_init(src, dst, 58, 8 + n)
+        for b in carry_payloads(rng, n, init)[:3]:
+            ops.append(dict(op='write', s=sid, n=n, data=b, seq=0xfffc, to=dict(addr=dst, port=0)))
+    # TCP: one write = one segment (payload <= MSS, acknowledged before the next one)
+    pid = 0
+    for v, src, dst in ((4, DN4, DP4), (6, DN6, DP6)):
+        pid += 1
+        cs = 20 + pid
+        combo = dict(mss=1460)                      # no timestamps: the whole MSS is payload
+        ops.append(dict(op='sock', s=cs, proto='tcp', v=v))
+        ops.append(dict(op='bind', s=cs, addr='', port=65533 - pid))
+        ops.append(dict(op='rpeer', p=pid, nic=1, src=dst, sport=65530, dst=src, dport=0, isn=0xfffffff0, autoack=True))
+        ops.append(dict(op='connect', s=cs, addr=dst, port=65530))
+        ops.append(dict(op='rsynack', p=pid, opts=combo))
+        ops.append(dict(op='connect_wait', s=cs))
+        init = _pseudo_init(src, dst, 6)
+        total = 0
+        for n in [mtu - (40 if v == 4 else 60), rng.choice([700, 701])]:
+            for b in carry_payloads(rng, n, init)[:3]:
+                ops.append(dict(op='write', s=cs, n=n, data=b))
+                total += n
+                ops.append(dict(op='rwait', p=pid, bytes=total))
+        ops.append(dict(op='close', s=cs))
+    ops.append(dict(op='settle', ms=10))
+    return dict(name='dense', hosts=[h], ops=ops)
+
+
 def fam_udp_big(rng, thorough):
     """datagrams at the 16-bit length limits on a 64 KiB link (F3 territory): the length fields must not wrap"""
     h = single_host(rng, mtu=65535, resolve=False)
@@ -553,7 +674,7 @@ def gen_scenarios(ctx, budget_frames):
             (fam_offload(rng, th), 9), (fam_eth_single(rng, th), 17), (fam_resolve(rng, th, 'eth'), 10),
             (fam_pair(rng, th, kind='ip', v=4, mtu=[68, 576, 1500][k % 3]), 60), (fam_pair(rng, th, kind='ip', v=6), 40),
             (fam_pair(rng, th, kind='eth', v=rng.choice([4, 6])), 45), (fam_pair(rng, th), 45),
-            (fam_gateway(rng, th, 'ip'), 40), (fam_gateway(rng, th, 'eth'), 36),
+            (fam_gateway(rng, th, 'ip'), 40), (fam_gateway(rng, th, 'eth'), 36), (fam_dense(rng, th), 95),
         ]
         if th and k % 8 == 0:
             round_.append((fam_udp_big(rng, th), 3))
